@@ -10,8 +10,10 @@ import (
 
 // genGuards extracts, for every method of *STFS (pkg/fs/filesystem.go) and *File
 // (pkg/fs/file.go), the ordered list of its top-level statements classified as
-//   log | roGuard | writeFlagGuard | readFlagGuard | dirGuard | checkName | clean | lock |
-//   effect:<callee> | other
+//
+//	log | roGuard | writeFlagGuard | readFlagGuard | dirGuard | checkName | clean | lock |
+//	effect:<callee> | other
+//
 // so that the position of the read-only / write-flag guard relative to the first lock or
 // effect can be decided in Lean on what the source says now.
 func genGuards(repo string) string {
